@@ -203,7 +203,7 @@ func gen(tier string, rng *h.Rng, emit func(string)) {
 	// 3. the real adaptor. every assignment of the six property outcomes to 1..3 endpoints
 	k := 0
 	cfg := func() string {
-		if thorough && k%7 == 3 {
+		if k%7 == 3 {
 			return "3000000 0 97" // gas price 0: the endpoint's suggestion is used
 		}
 		switch k % 3 {
